@@ -191,6 +191,21 @@ def check_case(case) -> Outcome:
                 from vp.ir import Val
 
                 same = P.compare(b, Val(a, exact=False, comparable=vals[i].comparable, rtol=vals[i].rtol, scale=vals[i].scale)) is None
+            if not same and a.shape == b.shape and np.asarray(a).dtype.kind in "fc":
+                # some operations hand on a block of a wider dtype than the one they declare (nextafter with mixed operands,
+                # nanmedian of float32): unfused, the intermediate is rounded to the declared dtype when stored; fused it is not.
+                # Both results are correctly rounded evaluations; they may differ by rounding at the narrowest float dtype
+                # that occurs among the inputs and nodes of the program.
+                kinds = {str(np.asarray(v.v).dtype) for v in vals if not v.is_tuple}
+                narrow = bool(kinds & {"float32", "complex64"})
+                from vp.ir import Val
+
+                scale = max(vals[i].scale, 1.0)
+                tol = Val(a, exact=False, comparable=vals[i].comparable, rtol=1e-5 if narrow else 1e-12, scale=scale)
+                if P.compare(b.astype(np.complex64 if narrow and b.dtype.kind == "c" else (np.float32 if narrow else b.dtype)),
+                             Val(np.asarray(a).astype(np.complex64 if narrow and a.dtype.kind == "c" else (np.float32 if narrow else a.dtype)), exact=False, comparable=vals[i].comparable, scale=scale)) is None:
+                    same = True
+                    labels.add("differs-by-intermediate-rounding")
             if not same:
                 fails.append(Failure(f"optimized-differs:{o['name']}:{opn}", f"node {i}: optimized result differs from unoptimized ({P._diff_msg(b, a) if a.shape == b.shape else 'shape'})"))
                 break
